@@ -76,17 +76,18 @@ func TestC07(t *testing.T) {
 			Violation(rt, "C07/apply-inplace-panic", "applying the optimized patch in place panicked at %s: %s", ar2.Stage, ar2.Panic)
 			return
 		}
+		known := pair.HasKnownInPlaceShape()
 		if ar2.Err != nil {
-			if len(pair.DirFile) > 0 && ar2.Stage == "commit" {
-				// in-place commit across a dir<->file kind change: C02's known finding, not C07's subject
-				Ev.Probe("inplace_skipped_dirfile_kind_change")
+			if known && ar2.Stage == "commit" {
+				// C02's known in-place commit findings, not C07's subject
+				Ev.Probe("inplace_skipped_known_inplace_shape")
 			} else {
 				Violation(rt, "C07/apply-inplace-failed", "applying the optimized patch in place failed at %s: %+v (%s)", ar2.Stage, ar2.Err, kd)
 				return
 			}
 		} else if d := pair.New.Diff(MustSnapshot(inDir).Tree); d != "" {
-			if len(pair.DirFile) > 0 {
-				Ev.Probe("inplace_skipped_dirfile_kind_change")
+			if known {
+				Ev.Probe("inplace_skipped_known_inplace_shape")
 			} else {
 				Violation(rt, "C07/inplace-wrong-output", "optimized patch applied in place differs from the new build: %s (%s)\nops %v", d, kd, pair.Ops)
 				return
